@@ -277,11 +277,17 @@ impl LanguageServer for Server {
 impl Server {
     fn set_file_content(&mut self, uri: &Url, text: &str) {
         let path = UrlExt::to_file_path(uri);
-        let mut vfs = self.vfs.write().unwrap();
-        vfs.set_open_document(path.clone(), text.to_string());
-        let file_id = vfs.assign_or_get_file_id(path);
+        let file_id = {
+            let mut vfs = self.vfs.write().unwrap();
+            vfs.set_open_document(path.clone(), text.to_string());
+            vfs.assign_or_get_file_id(path)
+        };
+        // Writing an input waits until every outstanding snapshot is dropped, and the tasks that own
+        // them take the file table's read lock part-way through: do not hold its write lock meanwhile.
+        // Only this thread creates snapshots, so none exists any more once the write has returned.
         let text = Arc::from(text);
         self.host.set_file_content(file_id, text);
+        let mut vfs = self.vfs.write().unwrap();
         self.host.set_root_file(&mut *vfs, file_id);
     }
 
